@@ -25,6 +25,19 @@ fn gen(t: &mut Tape, _tier: Tier) -> Scenario {
             pb: b.props.pb,
             dict: dict as u32,
             size: if b.marker { None } else { Some(b.expect.len() as u64) },
+            // a third of the raw runs use a decoder object that was constructed for
+            // another size and re-targeted with reset(Some(size))
+            pre: if t.below(3) == 0 {
+                Some(match t.below(5) {
+                    0 => 0,
+                    1 => 1,
+                    2 => t.range(2, 64),
+                    3 => b.expect.len() as u64 / 2,
+                    _ => b.expect.len() as u64 + t.range(1, 5000),
+                })
+            } else {
+                None
+            },
         };
         sc.set_i("ep", EP_RAW_LZMA);
         sc.set_b("input", b.payload.clone());
@@ -229,7 +242,7 @@ fn exec(sc: &Scenario, ctx: &mut Ctx) -> Vec<Violation> {
 pub static C10: SimpleProp = SimpleProp {
     id: "C10",
     level: "exploration",
-    rule: "one evaluation = one pair (unlimited run, run with memlimit m) of a valid reference-encoded stream, m in {0, need-1, need, need+1, dict-1, dict, max, random, and values >= 2^32 whose low 32 bits are small} with need = min(dictionary, bytes produced), through lzma_decompress_with_options or Stream under a random history (each under all three header options), or the raw decoder (dictionary 1..5000); m >= need: identical verdict and bytes; m < need: Err and delivered bytes are a model prefix; heap peak of the limited run (metering allocator) <= literal table + 2*max(min(m,need),8) + 16 KiB (only allocations made while library code runs are metered); a fifth of the header-carrying streams are re-headed to announce a 256 MiB-4 GiB dictionary (and, for size-bounded ones, a 1 GiB size); non-trivial = need > 0; distinct by scenario hash",
+    rule: "one evaluation = one pair (unlimited run, run with memlimit m) of a valid reference-encoded stream, m in {0, need-1, need, need+1, dict-1, dict, max, random, and values >= 2^32 whose low 32 bits are small} with need = min(dictionary, bytes produced), through lzma_decompress_with_options or Stream under a random history (each under all three header options), or the raw decoder (dictionary 1..5000; a third of these on a decoder object constructed for another size and re-targeted with reset); m >= need: identical verdict and bytes; m < need: Err and delivered bytes are a model prefix; heap peak of the limited run (metering allocator) <= literal table + 2*max(min(m,need),8) + 16 KiB (only allocations made while library code runs are metered); a fifth of the header-carrying streams are re-headed to announce a 256 MiB-4 GiB dictionary (and, for size-bounded ones, a 1 GiB size); non-trivial = need > 0; distinct by scenario hash",
     runs_quick: 150_000,
     runs_thorough: 24_000_000,
     both_profiles: false,
